@@ -573,13 +573,30 @@ impl Check {
             }
         };
 
-        for (p, c) in &regress {
-            let (v, known) = self.judge(&sec, c);
-            record(c, &v, &known);
-            if let Some(f) = v.fail {
-                eprintln!("regression replay {} fails: {} {}", p.display(), f.key, f.msg);
-                failures.lock().unwrap().push((c.clone(), f));
-            }
+        if !regress.is_empty() {
+            // on a thread of their own, so that the monitor sees a replay that does not finish
+            let slots: Vec<Busy<C>> = vec![Busy::new()];
+            let regress = std::mem::take(&mut regress);
+            let (slots, this, secr, record, failures) = (&slots, &*self, &sec, &record, &failures);
+            let remaining = std::sync::atomic::AtomicUsize::new(1);
+            let remaining = &remaining;
+            std::thread::scope(|scope| {
+                scope.spawn(move || watch_cases(this, secr.name, t0, slots, remaining));
+                scope.spawn(move || {
+                    let _done = Countdown(remaining);
+                    util::install_panic_capture();
+                    for (p, c) in &regress {
+                        slots[0].enter(t0, c);
+                        let (v, known) = this.judge(secr, c);
+                        slots[0].leave();
+                        record(c, &v, &known);
+                        if let Some(f) = v.fail {
+                            eprintln!("regression replay {} fails: {} {}", p.display(), f.key, f.msg);
+                            failures.lock().unwrap().push((c.clone(), f));
+                        }
+                    }
+                });
+            });
         }
 
         // 2. generation
@@ -592,10 +609,16 @@ impl Check {
                 let record = &record;
                 let failures = &failures;
                 let aborted = &aborted;
+                let slots: Vec<Busy<C>> = (0..shards).map(|_| Busy::new()).collect();
+                let slots = &slots;
+                let remaining = std::sync::atomic::AtomicUsize::new(shards);
+                let remaining = &remaining;
                 std::thread::scope(|scope| {
+                    scope.spawn(move || watch_cases(this, secr.name, t0, slots, remaining));
                     for shard in 0..shards {
                         let seed = this.section_seed(secr.name, shard);
                         scope.spawn(move || {
+                            let _done = Countdown(remaining);
                             util::install_panic_capture();
                             let cfg = Config {
                                 cases: per as u32,
@@ -611,7 +634,9 @@ impl Check {
                             let strat = strategy();
                             let failed_once = AtomicBool::new(false);
                             let res = runner.run(&strat, |case| {
+                                slots[shard].enter(t0, &case);
                                 let (v, known) = this.judge(secr, &case);
+                                slots[shard].leave();
                                 if !failed_once.load(Ordering::Relaxed) {
                                     record(&case, &v, &known);
                                 }
@@ -629,7 +654,9 @@ impl Check {
                                     // re-judge the minimal case to obtain key+msg
                                     let mut got = None;
                                     for _ in 0..3 {
+                                        slots[shard].enter(t0, &minimal);
                                         let (v, _k) = this.judge(secr, &minimal);
+                                        slots[shard].leave();
                                         if let Some(f) = v.fail {
                                             got = Some(f);
                                             break;
@@ -663,9 +690,16 @@ impl Check {
                 let record = &record;
                 let failures = &failures;
                 let fail_count = AtomicU64::new(0);
+                let slots: Vec<Busy<C>> = (0..sec.shards).map(|_| Busy::new()).collect();
+                let slots = &slots;
+                let remaining = std::sync::atomic::AtomicUsize::new(sec.shards);
+                let remaining = &remaining;
+                let (it, stop, fail_count) = (&it, &stop, &fail_count);
                 std::thread::scope(|sc| {
-                    for _ in 0..sec.shards {
-                        sc.spawn(|| {
+                    sc.spawn(move || watch_cases(this, secr.name, t0, slots, remaining));
+                    for shard in 0..sec.shards {
+                        sc.spawn(move || {
+                            let _done = Countdown(remaining);
                             util::install_panic_capture();
                             loop {
                                 if stop.load(Ordering::Relaxed) {
@@ -686,7 +720,9 @@ impl Check {
                                     break;
                                 }
                                 for c in &batch {
+                                    slots[shard].enter(t0, c);
                                     let (v, known) = this.judge(secr, c);
+                                    slots[shard].leave();
                                     record(c, &v, &known);
                                     if let Some(f) = v.fail {
                                         // keep the smallest (by JSON length) failure per key: enumeration
@@ -926,4 +962,126 @@ pub fn pick_idx(i: u16, len: usize) -> usize {
 /// Convenience: boxed strategy from any strategy.
 pub fn boxed<S: Strategy + 'static>(s: S) -> BoxedStrategy<S::Value> {
     s.boxed()
+}
+
+
+// ---------------------------------------------------------------------------
+// a case that does not finish
+// ---------------------------------------------------------------------------
+
+/// What one shard thread is evaluating right now (for the monitor of `Check::run`).
+struct Busy<C> {
+    /// milliseconds since the section started, +1; 0 = between cases
+    since_ms: AtomicU64,
+    tid: std::sync::atomic::AtomicI32,
+    case: Mutex<Option<C>>,
+}
+
+impl<C: Clone> Busy<C> {
+    fn new() -> Self {
+        Busy { since_ms: AtomicU64::new(0), tid: std::sync::atomic::AtomicI32::new(0), case: Mutex::new(None) }
+    }
+    fn enter(&self, t0: Instant, case: &C) {
+        *self.case.lock().unwrap() = Some(case.clone());
+        // SAFETY: gettid has no preconditions
+        self.tid.store(unsafe { libc::gettid() }, Ordering::Relaxed);
+        self.since_ms.store(t0.elapsed().as_millis() as u64 + 1, Ordering::SeqCst);
+    }
+    fn leave(&self) {
+        self.since_ms.store(0, Ordering::SeqCst);
+    }
+}
+
+/// (state, utime + stime in clock ticks) of a thread of this process
+fn thread_sample(tid: i32) -> Option<(char, u64)> {
+    let txt = std::fs::read_to_string(format!("/proc/self/task/{tid}/stat")).ok()?;
+    let rest = &txt[txt.rfind(')')? + 1..];
+    let f: Vec<&str> = rest.split_whitespace().collect();
+    let state = f.first()?.chars().next()?;
+    let ticks = f.get(11)?.parse::<u64>().ok()? + f.get(12)?.parse::<u64>().ok()?;
+    Some((state, ticks))
+}
+
+/// Watches the shard threads of one section. A case normally costs micro- to milliseconds (the
+/// heaviest ones of the thorough tiers: tens of seconds). A thread that has been inside ONE case
+/// for more than a minute is sampled: once it has consumed `VH_SPIN_CPU_S` (default 150) further
+/// seconds of CPU time of its own inside that case and is still runnable, the code under test is
+/// in a loop that does not end — CPU time of a thread does not depend on how loaded the machine
+/// is, so this is a verdict: the case becomes the replay file and the process exits 1 (the stuck
+/// thread cannot be stopped, the section cannot be completed). A thread that sleeps in one case
+/// for `VH_BLOCKED_S` (default 1800) seconds without consuming CPU time is reported as
+/// infrastructure trouble (exit 2): the harness cannot tell a lock that is never released from a
+/// wait it set up itself.
+fn watch_cases<C: Serialize + Clone>(ck: &Check, section: &str, t0: Instant, slots: &[Busy<C>], remaining: &std::sync::atomic::AtomicUsize) {
+    let env = |k: &str, d: u64| std::env::var(k).ok().and_then(|v| v.parse().ok()).unwrap_or(d);
+    let (spin_s, blocked_s) = (env("VH_SPIN_CPU_S", 150), env("VH_BLOCKED_S", 1800));
+    // SAFETY: sysconf has no preconditions
+    let hz = u64::try_from(unsafe { libc::sysconf(libc::_SC_CLK_TCK) }).ok().filter(|h| *h > 0).unwrap_or(100);
+    // per slot: (since of the watched case, ticks at first notice, ticks last seen, ms of last change)
+    let mut watch: Vec<Option<(u64, u64, u64, u64)>> = vec![None; slots.len()];
+    loop {
+        for _ in 0..10 {
+            if remaining.load(Ordering::SeqCst) == 0 {
+                return;
+            }
+            std::thread::sleep(std::time::Duration::from_millis(200));
+        }
+        let now = t0.elapsed().as_millis() as u64 + 1;
+        for (i, s) in slots.iter().enumerate() {
+            let since = s.since_ms.load(Ordering::SeqCst);
+            if since == 0 || now.saturating_sub(since) < 60_000 {
+                watch[i] = None;
+                continue;
+            }
+            let Some((state, ticks)) = thread_sample(s.tid.load(Ordering::Relaxed)) else { continue };
+            let w = match watch[i] {
+                Some(w) if w.0 == since => w,
+                _ => (since, ticks, ticks, now),
+            };
+            let w = if ticks > w.2 { (w.0, w.1, ticks, now) } else { w };
+            watch[i] = Some(w);
+            let cpu_s = (ticks - w.1) / hz;
+            let idle_s = now.saturating_sub(w.3) / 1000;
+            let spinning = state == 'R' && cpu_s >= spin_s;
+            let blocked = state == 'S' && idle_s >= blocked_s;
+            if !spinning && !blocked {
+                continue;
+            }
+            // the case may have ended this very moment
+            if s.since_ms.load(Ordering::SeqCst) != since {
+                continue;
+            }
+            let Some(case) = s.case.lock().unwrap().clone() else { continue };
+            if blocked {
+                eprintln!(
+                    "INFRA: section {section}: a case has been asleep for {idle_s} s without consuming CPU time (blocked for good, or waiting for something the harness set up); case = {}",
+                    serde_json::to_string(&case).unwrap_or_default()
+                );
+                std::process::exit(2);
+            }
+            let key = format!("{}:{section}:case-does-not-finish:spinning", ck.id);
+            let msg = format!(
+                "one case has kept its thread on the CPU for {} s of wall time and {cpu_s} s of CPU time after the first minute, and the thread is still runnable: a call into the code under test does not return",
+                now.saturating_sub(since) / 1000
+            );
+            if ck.known.is_open(&key) {
+                println!("KNOWN-FINDING: property={} {}", ck.id, ck.known.what(&key).unwrap_or(key.clone()));
+                eprintln!("INFRA: cannot continue behind a case that does not finish");
+                std::process::exit(2);
+            }
+            let path = ck.write_replay(section, &case, &Failure { key: key.clone(), msg: msg.clone() });
+            println!("failure section={section} key={key} msg={msg}");
+            println!("VIOLATION property={} replay={}", ck.id, path.display());
+            std::process::exit(1);
+        }
+    }
+}
+
+/// decrements the number of running shard threads when a shard ends (also by a panic)
+struct Countdown<'a>(&'a std::sync::atomic::AtomicUsize);
+
+impl Drop for Countdown<'_> {
+    fn drop(&mut self) {
+        self.0.fetch_sub(1, Ordering::SeqCst);
+    }
 }
